@@ -50,12 +50,14 @@ type Conn struct {
 	parked int // readers waiting with an empty queue
 	reads  int // completed Read calls
 
-	writes   []WriteRec
-	written  []byte
-	inWrite  int32
-	Overlap  int32 // set to 1 if two Write calls ever overlapped
-	closedAt time.Time
-	closes   int
+	rdeadline time.Time // read deadline (zero: none)
+	timeouts  int       // reads that ended with a deadline error
+	writes    []WriteRec
+	written   []byte
+	inWrite   int32
+	Overlap   int32 // set to 1 if two Write calls ever overlapped
+	closedAt  time.Time
+	closes    int
 
 	// WriteHook, when set, decides the outcome of a Write: it receives the
 	// caller's slice and an accept function that appends bytes to the record
@@ -122,11 +124,39 @@ func (c *Conn) Read(p []byte) (int, error) {
 			c.reads++
 			return 0, c.rerr
 		}
+		if !c.rdeadline.IsZero() {
+			d := time.Until(c.rdeadline)
+			if d <= 0 {
+				c.timeouts++
+				c.cond.Broadcast()
+				return 0, &TimeoutError{}
+			}
+			// wake up when the deadline passes
+			t := time.AfterFunc(d, func() { c.mu.Lock(); c.cond.Broadcast(); c.mu.Unlock() })
+			c.parked++
+			c.cond.Broadcast()
+			c.cond.Wait()
+			c.parked--
+			t.Stop()
+			continue
+		}
 		c.parked++
 		c.cond.Broadcast()
 		c.cond.Wait()
 		c.parked--
 	}
+}
+
+// TimeoutError is what a read returns when its deadline passes.
+type TimeoutError struct{}
+
+func (e *TimeoutError) Error() string   { return "memnet: i/o timeout" }
+func (e *TimeoutError) Timeout() bool   { return true }
+func (e *TimeoutError) Temporary() bool { return true }
+
+// WaitTimeouts waits until n reads have ended with a deadline error.
+func (c *Conn) WaitTimeouts(n int, timeout time.Duration) bool {
+	return c.wait(timeout, func() bool { return c.timeouts >= n || c.closed })
 }
 
 // Write records the bytes (or lets the WriteHook decide).
@@ -179,10 +209,16 @@ func (c *Conn) Close() error {
 	return nil
 }
 
-func (c *Conn) LocalAddr() net.Addr                { return c.Local }
-func (c *Conn) RemoteAddr() net.Addr               { return c.Remote }
-func (c *Conn) SetDeadline(t time.Time) error      { return nil }
-func (c *Conn) SetReadDeadline(t time.Time) error  { return nil }
+func (c *Conn) LocalAddr() net.Addr           { return c.Local }
+func (c *Conn) RemoteAddr() net.Addr          { return c.Remote }
+func (c *Conn) SetDeadline(t time.Time) error { return c.SetReadDeadline(t) }
+func (c *Conn) SetReadDeadline(t time.Time) error {
+	c.mu.Lock()
+	c.rdeadline = t
+	c.cond.Broadcast()
+	c.mu.Unlock()
+	return nil
+}
 func (c *Conn) SetWriteDeadline(t time.Time) error { return nil }
 
 // wait blocks until pred holds (under the lock) or the timeout expires.
